@@ -195,8 +195,9 @@ def generate(rng, tier, run):
             for op in c['ops']:
                 if rng.random() < 0.15:
                     op['real_parse'] = True
-    trace = big and rng.random() < 0.7
-    if trace and rng.random() < 0.06:
+    # line pre-emption in most thorough runs and in a share of the quick runs
+    trace = rng.random() < (0.7 if big else 0.12)
+    if trace and big and rng.random() < 0.06:
         # rare and expensive: line pre-emption inside the TatSu parser as well, every statement sent as text
         trace = 'parser'
         for c in clients:
